@@ -172,6 +172,12 @@ func writerTable(c *Check, pkgRel, recv, name string) ([]fieldWT, bool) {
 			out = append(out, fieldWT{f, wt})
 			return true
 		}
+		// the field number is a parameter of a tag-writing helper: resolved at the helper's call sites
+		if id, isId := call.Args[1].(*ast.Ident); isId {
+			if isParamOf(info, fd, id) {
+				return true
+			}
+		}
 		if se, isSe := call.Args[1].(*ast.SelectorExpr); isSe {
 			if v, isV := se.X.(*ast.Ident); isV {
 				if tbl, has := rangeOver[v.Name]; has {
@@ -185,7 +191,76 @@ func writerTable(c *Check, pkgRel, recv, name string) ([]fieldWT, bool) {
 		ok = false
 		return true
 	})
-	return out, ok // source order
+	// calls to same-package helpers that write a tag for a field number passed as argument
+	ast.Inspect(fd.Body, func(n ast.Node) bool {
+		call, isCall := n.(*ast.CallExpr)
+		if !isCall {
+			return true
+		}
+		id, isId := call.Fun.(*ast.Ident)
+		if !isId {
+			return true
+		}
+		for _, hs := range tagHelperSummary(c, pkgRel, id.Name) {
+			if hs.param < len(call.Args) {
+				if f, okf := constIntOf(info, call.Args[hs.param]); okf {
+					out = append(out, fieldWT{f, hs.wt})
+				} else {
+					ok = false
+				}
+			}
+		}
+		return true
+	})
+	return out, ok // source order (helper-written tags last)
+}
+
+type tagHelper struct{ param, wt int }
+
+// tagHelperSummary: EncodeTag(buf, <parameter i>, <const WT>) sites of a package-level helper.
+func tagHelperSummary(c *Check, pkgRel, name string) []tagHelper {
+	fd, info := funcDecl(c, pkgRel, "", name)
+	if fd == nil || fd.Body == nil {
+		return nil
+	}
+	var out []tagHelper
+	ast.Inspect(fd.Body, func(n ast.Node) bool {
+		call, isCall := n.(*ast.CallExpr)
+		if !isCall || len(call.Args) != 3 {
+			return true
+		}
+		sel, isSel := call.Fun.(*ast.SelectorExpr)
+		if !isSel || sel.Sel.Name != "EncodeTag" {
+			return true
+		}
+		id, isId := call.Args[1].(*ast.Ident)
+		wt, okw := constIntOf(info, call.Args[2])
+		if !isId || !okw {
+			return true
+		}
+		idx := 0
+		for _, fl := range fd.Type.Params.List {
+			for _, nm := range fl.Names {
+				if info.Defs[nm] == info.Uses[id] {
+					out = append(out, tagHelper{idx, wt})
+				}
+				idx++
+			}
+		}
+		return true
+	})
+	return out
+}
+
+func isParamOf(info *types.Info, fd *ast.FuncDecl, id *ast.Ident) bool {
+	for _, fl := range fd.Type.Params.List {
+		for _, nm := range fl.Names {
+			if info.Defs[nm] != nil && info.Defs[nm] == info.Uses[id] {
+				return true
+			}
+		}
+	}
+	return false
 }
 
 // helperWT: the wire type a reader helper (getString, ...) insists on.
